@@ -77,11 +77,17 @@ func endState(x *mc.Exec, st *stack, key string) {
 			x.Fail("leak/backlog", "queue_size=%d at the end", q)
 		}
 	}
-	// epilogue: exactly `limit` grants through the non-blocking delegate
+	// epilogue: exactly `limit` grants through the whole stack (state left behind in a wrapper — a held
+	// lock, a stale backlog entry — would block or refuse here), then one more through the
+	// non-blocking delegate, which must be refused
 	ctx := ctxFor(key)
 	var toks []core.Listener
+	top := st.top
+	if st.family == "deadline" {
+		top = st.def // the stack's fixed deadline may have passed by now: it then refuses by design
+	}
 	for i := 0; i < st.limit; i++ {
-		l, ok := st.def.Acquire(ctx)
+		l, ok := top.Acquire(ctx)
 		if !ok {
 			x.Fail("leak/refused", "epilogue: acquire %d of %d refused although nothing is held", i+1, st.limit)
 			break
@@ -239,7 +245,21 @@ func runC02(c *Ctx) {
 	kinds := append([]string{}, blockingKinds...)
 	kinds = append(kinds, "pool-random", "pool-fifo", "pool-lifo", "fixedpool-random", "fixedpool-fifo", "fixedpool-lifo")
 	for j, kind := range kinds {
+		// eager clock: give-up timers (backlog timeout) race hand-offs and releases
 		eager := isQueueKind(kind)
+		if kind == "deadline" || kind == "blocking50" {
+			// the deadline / poll-timeout expiry races the release instead of waiting for quiescence
+			c.ExploreBig(c02Scenario(c02Case{kind: kind, strategy: "precise", limit: 1, callers: 2, outcome: (j + 2) % 3, eager: true}),
+				mc.Options{PreemptBound: map[string]int{"deadline": 2, "blocking50": c.Pick(1, 2)}[kind]})
+		}
+		if kind == "blocking0" || kind == "deadline" || kind == "queue-fifo" || kind == "queue-lifo-evict" {
+			// wrappers over a partitioned strategy: the waiter's own bin is charged and released (holder key a, waiters a and b / zz)
+			sk, ks := "lookup", []string{"a", "b"}
+			if kind == "deadline" || kind == "queue-lifo-evict" {
+				sk, ks = "predicate", []string{"b", "a"}
+			}
+			c.Explore(c02Scenario(c02Case{kind: kind, strategy: sk, limit: 1, callers: 2, outcome: (j + 1) % 3, eager: eager, keys: ks}), mc.Options{PreemptBound: c.Pick(1, 2)})
+		}
 		if !c.Thorough() {
 			// quick: one holder outcome per kind (rotating), no canceller at preemption bound 2,
 			// canceller at preemption bound 1
@@ -252,7 +272,11 @@ func runC02(c *Ctx) {
 				c.Explore(c02Scenario(c02Case{kind: kind, strategy: "precise", limit: 1, callers: 2, outcome: o, eager: eager, backlog: 1}), mc.Options{PreemptBound: 2})
 			}
 			if kind == "blocking0" || kind == "deadline" || kind == "queue-fifo-evict" || kind == "pool-lifo" {
-				c.Explore(c02Scenario(c02Case{kind: kind, strategy: "simple", limit: 2, callers: 3, outcome: (o + 2) % 3, eager: eager}), mc.Options{PreemptBound: 1})
+				nc := 3
+				if !eager {
+					nc = 2 // the condition-variable limiters with three waiters cost a minute: thorough tier
+				}
+				c.ExploreBig(c02Scenario(c02Case{kind: kind, strategy: "simple", limit: 2, callers: nc, outcome: (o + 2) % 3, eager: eager}), mc.Options{PreemptBound: 1})
 			}
 			continue
 		}
